@@ -94,7 +94,14 @@ def _nch(chs):
 
 def _vals(rng, chs, gen, as_list_p=0.5):
     if rng.random() < as_list_p:
-        return [gen() for _ in range(_nch(chs))]
+        n = _nch(chs)
+        c = rng.random()
+        if c < 0.15 and n > 1:
+            n = rng.randint(1, n - 1)         # fewer values than channels
+        elif c < 0.25:
+            n = n + rng.randint(1, 2)         # more values than channels
+        out = [gen() for _ in range(n)]
+        return tuple(out) if rng.random() < 0.15 else out
     return gen()
 
 
@@ -160,11 +167,11 @@ def generate(seed, tier):
             ops.append({"op": k, "chs": chs, "on": rng.random() < 0.5})
         elif k == "set_data":
             n = _data_len(rng)
-            form = rng.choice(["str", "list", "arr", "arr_bool", "2d", "2d_list"])
-            if form == "str" and not (chs is None or isinstance(chs, int)):
+            form = rng.choice(["str", "str_sp", "str_comma", "list", "arr", "arr_bool", "2d", "2d_list"])
+            if form.startswith("str") and not (chs is None or isinstance(chs, int)):
                 form = "list"
             start = _start(rng, n)
-            overflow = rng.random() < 0.06 and form in ("str", "list", "arr")
+            overflow = rng.random() < 0.06 and form in ("str", "str_sp", "str_comma", "list", "arr")
             if overflow:
                 start = MEM - n + 1 + rng.randint(1, min(n - 1, 40)) if n > 1 else MEM
             ops.append({"op": k, "chs": chs, "n": n, "dseed": rng.getrandbits(32), "start": start, "form": form,
@@ -215,7 +222,8 @@ def generate(seed, tier):
                         "sigma": rng.choice([0.0, 0.01, 0.05, 0.1]), "nseed": rng.getrandbits(32),
                         "prefix": rng.choice(["periodic", "silence"]), "form": rng.choice(["es", "arr", "both"]),
                         "tx": rng.choice(["bs", "arr"]), "amp": rng.choice([1.0, 0.05, 2.0]),
-                        "off": 0.0, "reps": rng.choice([3, 3, 4])})
+                        "off": 0.0, "reps": rng.choice([3, 3, 4]), "short": rng.random() < 0.3,
+                        "extra": rng.random()})
         elif k == "sync_short":
             ops.append({"op": "sync_short", "nslots": rng.choice([32, 64]), "sps": rng.choice([2, 8]),
                         "cut": rng.choice([1, 2, 100]), "form": rng.choice(["es", "arr"])})
@@ -348,7 +356,8 @@ class Bench:
         v = op["v"]
         chs = op.get("chs") if per_channel else None
         sel, bad_ch = _clip_channels(chs) if per_channel else ([None], False)
-        vals = v if isinstance(v, list) else [v] * len(sel)
+        vals = list(v) if isinstance(v, (list, tuple)) else [v] * len(sel)
+        vals = vals[:len(sel)]             # only values that pair with a channel are requests
         oor = [x < lo or x > hi for x in vals]
         what = f"{name}({v!r}, CHs={chs!r})" if per_channel else f"{name}({v!r})"
         res, exc, warns, new, fired = self._drive(what, call)
@@ -412,7 +421,7 @@ class Bench:
     def op_set_prbs_order(self, op):
         v, chs = op["v"], op["chs"]
         sel, bad_ch = _clip_channels(chs)
-        vals = v if isinstance(v, list) else [v] * len(sel)
+        vals = (list(v) if isinstance(v, (list, tuple)) else [v] * len(sel))[:len(sel)]
         orders = LIMITS["prbs_orders"]
         oor = [x not in orders for x in vals]
         what = f"set_prbs_order({v!r}, CHs={chs!r})"
@@ -516,6 +525,10 @@ class Bench:
         d = rs.randint(0, 2, n).astype(np.uint8)
         if form == "str":
             return "".join(map(str, d.tolist())), np.tile(d, (nch, 1))
+        if form == "str_sp":
+            return " ".join(map(str, d.tolist())), np.tile(d, (nch, 1))
+        if form == "str_comma":
+            return ",".join(map(str, d.tolist())), np.tile(d, (nch, 1))
         if form == "list":
             return d.tolist(), np.tile(d, (nch, 1))
         if form == "arr_bool":
@@ -659,6 +672,10 @@ class Bench:
             rx = np.roll(rx, d)
         else:
             rx = np.concatenate([np.full(d, op["off"]), rx])[: rx.size]
+        if op.get("short"):
+            # a record only a little longer than delay + one pattern (less than two patterns in total)
+            keep = d + L + 1 + int(op.get("extra", 0.5) * max(0, L - d - 2))
+            rx = rx[:min(rx.size, max(keep, L + 1))]
         if op["sigma"]:
             rx = rx + np.random.RandomState(op["nseed"]).normal(0, op["sigma"] * op["amp"], rx.size)
         tx = self.BS(bits) if op["tx"] == "bs" else bits.copy()
@@ -678,7 +695,7 @@ class Bench:
             if int(idx) != d:
                 raise Violation("C20/sync-index", f"{what}: returned index {int(idx)}, delay is {d}", "sync/index")
             s = np.asarray(sig.signal if isinstance(sig, self.ES) else sig)
-            m = min(len(s), L)
+            m = min(len(s), L, rx.size - d)
             if not isinstance(sig, self.ES) or m == 0 or not np.array_equal(s[:m].real, rx[d:d + m]):
                 raise Violation("C20/sync-start", f"{what}: returned signal does not start at sample {d} of the "
                                                   f"received record", "sync/start")
@@ -692,7 +709,10 @@ class Bench:
         self.rec.fault("delay")
         if op["sigma"]:
             self.rec.fault("awgn")
-        self.rec.sig("sync", sps, "d0" if d == 0 else "dlast" if d == L - 1 else "d", op["prefix"], bool(op["sigma"]))
+        self.rec.sig("sync", sps, "d0" if d == 0 else "dlast" if d == L - 1 else "d", op["prefix"], bool(op["sigma"]),
+                     "short" if op.get("short") else "long")
+        if op.get("short"):
+            self.rec.probe("SYNC on a record shorter than two patterns")
         return f"ok:{d}"
 
     def op_sync_short(self, op):
